@@ -11,7 +11,7 @@ namespace Copia.C11
 open Copia.Hub
 
 /-- C11: an accepted request path, joined onto the root, resolves **under the root**. -/
-theorem under_root (root rel q : List Char) (h : safeJoin root rel = some q) :
+theorem under_root (root rel q : List Char) (h : safeJoinPath root rel = some q) :
     osResolve root <+: osResolve q := by
   obtain ⟨rfl, _, hdd⟩ := accepted_no_dotdot root rel q h
   unfold osResolve
@@ -51,7 +51,7 @@ theorem splitSlash_suffix (p suf : List Char) (hs : '/' ∉ suf) :
 /-- C11: the staging name and the conflict-copy name of an accepted destination (formed by
 appending to the path *string*) also resolve under the root — the appended suffix has no `/` and is
 longer than two characters, so the last component can neither vanish nor become `..`. -/
-theorem suffixed_under_root (root rel q suf : List Char) (h : safeJoin root rel = some q)
+theorem suffixed_under_root (root rel q suf : List Char) (h : safeJoinPath root rel = some q)
     (hs : '/' ∉ suf) (hl : 2 < suf.length) : osResolve root <+: osResolve (q ++ suf) := by
   obtain ⟨rfl, _, hdd⟩ := accepted_no_dotdot root rel q h
   have e : root ++ '/' :: rel ++ suf = root ++ '/' :: (rel ++ suf) := by simp
@@ -69,12 +69,12 @@ theorem suffixed_under_root (root rel q suf : List Char) (h : safeJoin root rel 
     have : (last ++ suf).length = 2 := by rw [← hm]; rfl
     simp at this; omega
 
-theorem staging_under_root (root rel q : List Char) (h : safeJoin root rel = some q) :
+theorem staging_under_root (root rel q : List Char) (h : safeJoinPath root rel = some q) :
     osResolve root <+: osResolve (tmpOf q) := by
   unfold tmpOf
   exact suffixed_under_root root rel q _ h (by decide) (by decide)
 
-theorem conflict_copy_under_root (root rel q short : List Char) (h : safeJoin root rel = some q)
+theorem conflict_copy_under_root (root rel q short : List Char) (h : safeJoinPath root rel = some q)
     (hs : '/' ∉ short) : osResolve root <+: osResolve (cnameOf q short) := by
   unfold cnameOf
   rw [List.append_assoc]
@@ -110,7 +110,7 @@ theorem ccPick_form {H} [DecidableEq H] (hash : Bytes → H) (t : HTree) (p shor
 
 /-- C11: the conflict-copy name the (repaired) hub picks stays under the root, for every tree -/
 theorem picked_conflict_copy_under_root {H} [DecidableEq H] (hash : Bytes → H) (t : HTree)
-    (root rel q short : List Char) (hh : H) (h : safeJoin root rel = some q) (hs : '/' ∉ short) (fuel n : Nat) :
+    (root rel q short : List Char) (hh : H) (h : safeJoinPath root rel = some q) (hs : '/' ∉ short) (fuel n : Nat) :
     osResolve root <+: osResolve (ccPick hash t q short hh fuel n) := by
   obtain ⟨m, e⟩ := ccPick_form hash t q short hh fuel n
   rw [e]
@@ -165,13 +165,13 @@ theorem ccPick_free_or_exhausted {H} [DecidableEq H] (hash : Bytes → H) (t : H
 
 /-- C11 (refusal): a path is refused exactly when it is absolute or has a `..` component. -/
 theorem refused_iff (root rel : List Char) :
-    safeJoin root rel = none ↔ rel.head? = some '/' ∨ dotdot ∈ splitSlash rel := by
+    safeJoinPath root rel = none ↔ rel.head? = some '/' ∨ dotdot ∈ splitSlash rel := by
   constructor
   · intro h
     by_cases hh : rel.head? = some '/'
     · exact Or.inl hh
     · right
-      unfold safeJoin at h
+      unfold safeJoinPath at h
       simp only [hh, if_false] at h
       split at h
       · next hany =>
@@ -223,14 +223,56 @@ theorem refused_iff (root rel : List Char) :
                     · exact ih e'
       · cases h
   · rintro (hh | hdd)
-    · simp [safeJoin, hh]
-    · cases hsj : safeJoin root rel with
+    · simp [safeJoinPath, hh]
+    · cases hsj : safeJoinPath root rel with
       | none => rfl
       | some q => exact absurd hdd (accepted_no_dotdot root rel q hsj).2.2
 
+/-! ## The repaired `safe_join`: the path guard plus the control directory -/
+
+theorem safeJoin_some (root rel q : List Char) (h : safeJoin root rel = some q) : safeJoinPath root rel = some q := by
+  unfold safeJoin at h
+  split at h
+  · cases h
+  · exact h
+
+/-- C11: whatever the hub accepts resolves under the served root -/
+theorem accepted_under_root (root rel q : List Char) (h : safeJoin root rel = some q) :
+    osResolve root <+: osResolve q := under_root root rel q (safeJoin_some root rel q h)
+
+/-- C11: … and so do its staging name and every conflict-copy name the hub may pick -/
+theorem accepted_staging_under_root (root rel q : List Char) (h : safeJoin root rel = some q) :
+    osResolve root <+: osResolve (tmpOf q) := staging_under_root root rel q (safeJoin_some root rel q h)
+
+theorem accepted_conflict_copy_under_root {H} [DecidableEq H] (hash : Bytes → H) (t : HTree)
+    (root rel q short : List Char) (hh : H) (h : safeJoin root rel = some q) (hs : '/' ∉ short) (fuel n : Nat) :
+    osResolve root <+: osResolve (ccPick hash t q short hh fuel n) :=
+  picked_conflict_copy_under_root hash t root rel q short hh (safeJoin_some root rel q h) hs fuel n
+
+/-- C11 (refusal, repaired hub): a path is refused exactly when it is absolute, has a `..` component, or
+its first name is the control directory `.copia` -/
+theorem refused_iff' (root rel : List Char) :
+    safeJoin root rel = none ↔ rel.head? = some '/' ∨ dotdot ∈ splitSlash rel ∨ reservedFirst rel = true := by
+  unfold safeJoin
+  split
+  · next hr => simp [hr]
+  · next hr =>
+    rw [refused_iff]
+    constructor
+    · rintro (h | h)
+      · exact Or.inl h
+      · exact Or.inr (Or.inl h)
+    · rintro (h | h | h)
+      · exact Or.inl h
+      · exact Or.inr h
+      · exact absurd h hr
+
 /-! Non-vacuity -/
-example : safeJoin "/srv/hub".toList "a//b/./c".toList = some "/srv/hub/a//b/./c".toList := by decide
-example : safeJoin "/srv/hub".toList "a/../../x".toList = none ∧ safeJoin "/srv/hub".toList "/etc/passwd".toList = none := by decide
+example : safeJoin "/srv/hub".toList ".copia/commit.lock".toList = none ∧ safeJoin "/srv/hub".toList "./.copia//x".toList = none ∧
+    safeJoin "/srv/hub".toList ".copia-notes/x".toList = some "/srv/hub/.copia-notes/x".toList ∧
+    safeJoin "/srv/hub".toList "d/.copia/x".toList = some "/srv/hub/d/.copia/x".toList := by decide
+example : safeJoinPath "/srv/hub".toList "a//b/./c".toList = some "/srv/hub/a//b/./c".toList := by decide
+example : safeJoinPath "/srv/hub".toList "a/../../x".toList = none ∧ safeJoinPath "/srv/hub".toList "/etc/passwd".toList = none := by decide
 example : osResolve "/srv/hub/a//b/./c".toList = ["srv".toList, "hub".toList, "a".toList, "b".toList, "c".toList] := by decide
 
 end Copia.C11
